@@ -205,6 +205,22 @@ def dump_sig(fn):
     return {'params': ps, 'ret': None if sig.return_annotation is EMPTY else vnum(sig.return_annotation)}
 
 
+def readded_ops(ops):
+    """names a builder history removes and adds again later on (parameter ids): the statement says nothing
+    about the annotation such a parameter ends up with, so the correspondence does not compare it"""
+    out = []
+    for i, op in enumerate(ops):
+        if op[0] == 'r' and any(o[0] != 'r' and o[1] == op[1] for o in ops[i + 1:]):
+            out.append(op[1])
+    return out
+
+
+def readded_w(inj, exp):
+    """the same for wraps(injected, expected): every injected name comes before every expected one"""
+    names = [z for z, _d in exp]
+    return [x for x in inj if x in names]
+
+
 class C13(Property):
     PID = 'C13'
     QUICK_BUDGET_S = 40
@@ -237,8 +253,12 @@ class C13(Property):
             'rejected call or the signature was modified, or (session) at least two steps with a function built; '
             'distinct = distinct case.')
     ASSUMPTIONS = ['no positional-only parameters; the wrapped object is a plain function (no partial / '
-                   'classmethod / builtin); names are abstract in the model - parameters / functions spelled like '
-                   'the builder\'s own exec-namespace names (_call, _func) are exercised by the generators',
+                   'classmethod / builtin); names are numbers in the model; the exec namespace and update_wrapper\'s '
+                   'call-name loop are modelled for _call / __call / _func as parameter and function names (the '
+                   'function name travels in the line as an `F<k>` token)',
+                   'the annotation of a parameter that the SAME request removes and adds again (injected and expected, '
+                   'remove_arg then add_arg) is not constrained by the statement: both sides print `*` for it, also in '
+                   'everything built from that function later in a session',
                    'values (defaults, annotations, arguments) are compared by identity',
                    'source text is modelled at the granularity of comma-separated items; the text of '
                    'get_sig_str / get_invocation_str is compared character by character via __source__',
@@ -246,6 +266,40 @@ class C13(Property):
                    'built functions only (what follows for functions built FROM an edited one is left open); the '
                    'return value and the number of calls of the user\'s wrapper are judged by the oracle only']
     CORRESPONDENCE_NAME = 'C13.Driver (FunctionBuilder / update_wrapper / argument-binding model; sessions on the heap model) vs boltons.funcutils.wraps'
+
+    # ------------------------------------------------------------------ translator
+    def regen(self):
+        """the text FunctionBuilder.get_sig_str(with_annotations=False) / get_invocation_str() produce NOW, for every
+        builder shape with <=2 positional parameters, *args or none, <=2 keyword-only parameters, **kw or none (36
+        shapes; the functions are evaluated - whether they use inspect_formatargspec and the _KWONLY_MARKER regex or
+        anything else does not matter).  Props.lean proves (`generated_text_agrees`, by evaluation in the kernel)
+        that the character-level model of Text.lean - join with ', ', the scanner for the regex - yields the same
+        text modulo white space on each of them."""
+        from boltons import funcutils
+        ok = set('abcdefghijklmnopqrstuvwxyzABCDEFGHIJKLMNOPQRSTUVWXYZ0123456789_ ,*=()\t')
+        rows = []
+        for args in ([], [1], [1, 2]):
+            for va in (None, 7):
+                for kwo in ([], [4], [4, 5]):
+                    for vk in (None, 9):
+                        fb = funcutils.FunctionBuilder('fn', args=['p%d' % a for a in args],
+                                                       varargs=None if va is None else 'p%d' % va,
+                                                       varkw=None if vk is None else 'p%d' % vk,
+                                                       kwonlyargs=['p%d' % k for k in kwo])
+                        sig, inv = fb.get_sig_str(with_annotations=False), fb.get_invocation_str()
+                        for t in (sig, inv):
+                            if not isinstance(t, str) or not set(t) <= ok:
+                                raise ValueError('get_sig_str / get_invocation_str returned %r' % (t,))
+                        opt = lambda x: 'none' if x is None else 'some %d' % x   # noqa: E731
+                        rows.append('  ((%s, %s, %s, %s), "%s", "%s")' % (args, opt(va), kwo, opt(vk),
+                                                                           sig.replace('\t', '\\t'), inv.replace('\t', '\\t')))
+        src = ('/- GENERATED by harness/bv/props/c13.py (regen) from boltons/funcutils.py - do not edit -/\n'
+               'namespace C13.Gen\n'
+               '/-- ((args, varargs, kwonlyargs, varkw), get_sig_str(with_annotations=False), get_invocation_str()) -/\n'
+               'def textTable : List ((List Nat × Option Nat × List Nat × Option Nat) × String × String) := [\n'
+               + ',\n'.join(rows) + ']\n'
+               'end C13.Gen\n')
+        return {'C13_Text.lean': src}
 
     # ------------------------------------------------------------------ generation
     def base_sigs(self, maxpos, kwo_cfgs):
@@ -679,6 +733,11 @@ class C13(Property):
 
     # ------------------------------------------------------------------ model line
     def line(self, case):
+        ln = self.line0(case)
+        fname = case.get('fname', 0)
+        return 'F%d %s' % (fname, ln) if fname else ln
+
+    def line0(self, case):
         def nl(l):
             return ','.join(str(x) for x in l) or '-'
 
@@ -1131,13 +1190,19 @@ class C13(Property):
         final = obs['snaps'][-1]
         nbase = len(obs['base'])
         blocks = [','.join(res_txt(r) for r in obs['results']) or '-']
+        # per function: the names whose annotation is left open (re-added by its own request, or open in its target)
+        masks = [[] for _ in range(nbase)]
+        for st, r in zip(case['session'], obs['results']):
+            if r == 'built':
+                own = readded_w(st[2], st[3]) if st[0] == 'w' else readded_ops(st[2])
+                masks.append((masks[st[1]] if st[1] < len(masks) else []) + own)
         for j, sn in enumerate(final):
             if 'exc' in sn['sig']:
                 blocks.append('sigerr %s' % sn['sig']['exc'])
                 continue
             txt = 'S %s ; M %s ; A %s' % (self.sig_text(sn['sig']),
                                           self.meta_text(case, sn['meta'], sn['wrapped'], sn['async']),
-                                          self.anns_text(sn['sig']))
+                                          self.anns_text(sn['sig'], masks[j] if j < len(masks) else ()))
             if j >= nbase:
                 outs = []
                 for o in obs['calls'][j - nbase]:
@@ -1169,8 +1234,11 @@ class C13(Property):
             sig += ' posonly!'
         return sig
 
-    def anns_text(self, ws):
-        anns = ','.join('%s:%s' % (self._num(p[0]), '-' if p[3] is None else p[3]) for p in ws['params'])
+    def anns_text(self, ws, mask=()):
+        """annotations of the parameters as inspect.signature shows them; `*` for a parameter the request removed
+        and added again (its annotation is not constrained by the statement)"""
+        anns = ','.join('%s:%s' % (self._num(p[0]), '*' if name_id(p[0]) in mask else ('-' if p[3] is None else p[3]))
+                        for p in ws['params'])
         return anns + ' r:%s' % ('-' if ws['ret'] is None else ws['ret'])
 
     @staticmethod
@@ -1240,8 +1308,7 @@ class C13(Property):
             md = '?%r' % (module,)
         wr = '-' if obs['wrapped'] is None else str(obs['wrapped'])
         meta = '%s %s %s %s %d' % (nm, dc, md, wr, obs['wasync'])
-        anns = ','.join('%s:%s' % (num(p[0]), '-' if p[3] is None else p[3]) for p in ws['params'])
-        anns += ' r:%s' % ('-' if ws['ret'] is None else ws['ret'])
+        anns = self.anns_text(ws, readded_ops(case['ops']) if hist else readded_w(case['injected'], case['expected']))
         d_txt, i_txt = [''.join(t.split()) for t in self.source_parts(obs['source'])]   # modulo white space
         i_txt = self.sort_kw_items(i_txt)
         outs = []
